@@ -5,6 +5,7 @@ import (
 	"fmt"
 	"sort"
 	"strings"
+	"time"
 )
 
 type SortKind int
@@ -112,6 +113,9 @@ type Ctx struct {
 	eqDepth   int
 	eqMemo    map[[2]int]*Term
 	quantMemo map[int]bool
+	nwMemo    map[[3]int]*Term
+	Deadline  time.Time
+	mkCount   int
 	// Small, when set, reports that a term's value as a signed integer is known to be of small magnitude
 	// (|t| < 2^56), so that sums and differences of a few such terms cannot wrap.
 	Small func(t *Term) bool
@@ -122,7 +126,7 @@ type Ctx struct {
 }
 
 func NewCtx() *Ctx {
-	return &Ctx{table: map[string]*Term{}, Funcs: map[string]*Func{}, Vars: map[string]*Term{}, linMemo: map[int]*linForm{}, eqMemo: map[[2]int]*Term{}, quantMemo: map[int]bool{}}
+	return &Ctx{table: map[string]*Term{}, Funcs: map[string]*Func{}, Vars: map[string]*Term{}, linMemo: map[int]*linForm{}, eqMemo: map[[2]int]*Term{}, quantMemo: map[int]bool{}, nwMemo: map[[3]int]*Term{}}
 }
 
 // NextStamp returns a new monotonically increasing stamp (shared by symbols and allocations).
@@ -136,7 +140,16 @@ func mask(w int) uint64 {
 	return (uint64(1) << uint(w)) - 1
 }
 
+// BudgetExceeded is raised (as a panic) when term construction runs past the context's deadline.
+type BudgetExceeded struct{}
+
+func (BudgetExceeded) Error() string { return "unsupported: term construction time budget exceeded" }
+
 func (c *Ctx) mk(op Op, sort Sort, args []*Term, val uint64, name string, p0, p1 int) *Term {
+	c.mkCount++
+	if c.mkCount&0xffff == 0 && !c.Deadline.IsZero() && time.Now().After(c.Deadline) {
+		panic(BudgetExceeded{})
+	}
 	var sb strings.Builder
 	fmt.Fprintf(&sb, "%d|%d|%d|%d|%s|%d|%d", op, sort.Kind, sort.Width, val, name, p0, p1)
 	for _, a := range args {
@@ -218,6 +231,18 @@ func (c *Ctx) DeclFunc(name string, args []Sort, res Sort) *Func {
 		return f
 	}
 	f := &Func{Name: name, Args: args, Res: res, Stamp: c.NextStamp()}
+	c.Funcs[name] = f
+	return f
+}
+
+// DeclFuncInitial declares an uninterpreted function that describes the state before execution began (stamp 0):
+// its values are older than every allocation made during execution, whenever it is first mentioned.
+func (c *Ctx) DeclFuncInitial(name string, args []Sort, res Sort) *Func {
+	name = sanitize(name)
+	if f, ok := c.Funcs[name]; ok {
+		return f
+	}
+	f := &Func{Name: name, Args: args, Res: res, Stamp: 0}
 	c.Funcs[name] = f
 	return f
 }
@@ -1092,6 +1117,27 @@ func (c *Ctx) signOfDiff(a, b *Term) (lt, le, gt, ge bool) {
 }
 
 func (c *Ctx) cmpNW(op Op, a, b *Term, depth int) *Term {
+	key := [3]int{int(op), a.ID, b.ID}
+	if r, ok := c.nwMemo[key]; ok {
+		return r
+	}
+	r := c.cmpNW1(op, a, b, depth)
+	c.nwMemo[key] = r
+	return r
+}
+
+// iteAtoms counts ite atoms in the linear form of t.
+func (c *Ctx) iteAtoms(t *Term) int {
+	n := 0
+	for _, tm := range c.lin(t).terms {
+		if tm.Op == OIte {
+			n++
+		}
+	}
+	return n
+}
+
+func (c *Ctx) cmpNW1(op Op, a, b *Term, depth int) *Term {
 	if d, ok := c.DiffConst(a, b); ok {
 		if op == OUlt {
 			return c.Bool(d < 0)
@@ -1116,12 +1162,12 @@ func (c *Ctx) cmpNW(op Op, a, b *Term, depth int) *Term {
 			if side == 1 {
 				t = b
 			}
-			if t.Op != OAdd && t.Op != OSub && t.Op != ONeg {
+			if t.Op != OAdd && t.Op != OSub && t.Op != ONeg || c.iteAtoms(t) > 2 {
 				continue
 			}
 			if it := c.iteAtom(t); it != nil {
-				tx := c.Subst(t, map[int]*Term{it.ID: it.Args[1]})
-				ty := c.Subst(t, map[int]*Term{it.ID: it.Args[2]})
+				tx := c.replaceAtom(t, it, it.Args[1])
+				ty := c.replaceAtom(t, it, it.Args[2])
 				var x, y *Term
 				if side == 0 {
 					x, y = c.cmpNW(op, tx, b, depth-1), c.cmpNW(op, ty, b, depth-1)
@@ -1224,12 +1270,12 @@ func (c *Ctx) signedBySmall(op Op, a, b *Term, depth int) (*Term, bool) {
 			if side == 1 {
 				t = b
 			}
-			if t.Op == OIte || (t.Op != OAdd && t.Op != OSub && t.Op != ONeg) {
+			if t.Op == OIte || (t.Op != OAdd && t.Op != OSub && t.Op != ONeg) || c.iteAtoms(t) > 2 {
 				continue
 			}
 			if it := c.iteAtom(t); it != nil {
-				tx := c.Subst(t, map[int]*Term{it.ID: it.Args[1]})
-				ty := c.Subst(t, map[int]*Term{it.ID: it.Args[2]})
+				tx := c.replaceAtom(t, it, it.Args[1])
+				ty := c.replaceAtom(t, it, it.Args[2])
 				var x, y *Term
 				var okx, oky bool
 				if side == 0 {
@@ -1276,6 +1322,26 @@ func (c *Ctx) iteAtom(t *Term) *Term {
 		return nil
 	}
 	return l.terms[best]
+}
+
+// replaceAtom rebuilds the linear term t with atom `it` replaced by `by` (no deep substitution).
+func (c *Ctx) replaceAtom(t, it, by *Term) *Term {
+	l := c.lin(t)
+	w := t.Sort.Width
+	r := c.Const(l.k, w)
+	ids := make([]int, 0, len(l.atoms))
+	for id := range l.atoms {
+		ids = append(ids, id)
+	}
+	sort.Ints(ids)
+	for _, id := range ids {
+		a := l.terms[id]
+		if a == it {
+			a = by
+		}
+		r = c.Add(r, c.Mul(c.Const(l.atoms[id], w), a))
+	}
+	return r
 }
 
 // LinAtoms exposes the linear form of t: constant part and (atom, coefficient) pairs.
